@@ -146,22 +146,75 @@ func runC17(c *Ctx) {
 					continue
 				}
 				slotAddrs = append(slotAddrs, ia)
-				// every use of the slot address must flow (through conversions) only into sync/atomic calls
+				// every use of the slot address must flow (through conversions, and through helper
+				// functions of the package that return it or receive it) only into sync/atomic calls
+				seenV := map[ssa.Value]bool{}
 				var walk func(v ssa.Value)
 				walk = func(v ssa.Value) {
+					if seenV[v] {
+						return
+					}
+					seenV[v] = true
 					for _, ref := range *v.Referrers() {
 						switch u := ref.(type) {
 						case *ssa.Convert:
 							walk(u)
 						case *ssa.ChangeType:
 							walk(u)
+						case *ssa.Phi:
+							walk(u)
+						case *ssa.Return:
+							// the address is handed to the callers of this function
+							callee := u.Parent()
+							idx := -1
+							for i, rv := range u.Results {
+								if rv == v {
+									idx = i
+								}
+							}
+							nSites := 0
+							for _, g := range c.P.AllFuncs {
+								for _, site := range callsTo(g, callee) {
+									cv, isVal := site.(ssa.Value)
+									if !isVal {
+										continue
+									}
+									nSites++
+									if len(u.Results) == 1 {
+										walk(cv)
+										continue
+									}
+									for _, r2 := range *cv.Referrers() {
+										if ex, ok := r2.(*ssa.Extract); ok && ex.Index == idx {
+											walk(ex)
+										}
+									}
+								}
+							}
+							if nSites == 0 || callee.Pkg != fn.Pkg {
+								plain = append(plain, fmt.Sprintf("%s returns a slot address to unknown callers at %s", c.P.FuncName(callee), c.pos(ref.Pos())))
+							}
 						case ssa.CallInstruction:
-							if !isAtomicCall(u) {
+							if isAtomicCall(u) {
+								continue
+							}
+							callee := u.Common().StaticCallee()
+							passed := false
+							if callee != nil && callee.Pkg == fn.Pkg && callee.Blocks != nil {
+								args := u.Common().Args
+								for i, a := range args {
+									if a == v && i < len(callee.Params) {
+										walk(callee.Params[i])
+										passed = true
+									}
+								}
+							}
+							if !passed {
 								plain = append(plain, fmt.Sprintf("slot address passed to %s at %s", pathExpr(u.Common().Value), c.pos(ref.Pos())))
 							}
 						case *ssa.DebugRef:
 						default:
-							plain = append(plain, fmt.Sprintf("%s: slot accessed by %T at %s", c.P.FuncName(fn), ref, c.pos(ref.Pos())))
+							plain = append(plain, fmt.Sprintf("%s: slot accessed by %T at %s", c.P.FuncName(ref.Parent()), ref, c.pos(ref.Pos())))
 						}
 					}
 				}
@@ -169,7 +222,7 @@ func runC17(c *Ctx) {
 			}
 		}
 	}
-	r.Check(len(plain) == 0 && len(slotAddrs) >= 2, "R17-slots", "slots are accessed only through sync/atomic", c.pos(tableT.Obj().Pos()), "", strings.Join(plain, "; "))
+	r.Check(len(plain) == 0 && len(slotAddrs) >= 1, "R17-slots", "slots are accessed only through sync/atomic", c.pos(tableT.Obj().Pos()), "", strings.Join(plain, "; "))
 	// publication: the only atomic call that stores into a slot is CompareAndSwapPointer
 	pubOK := true
 	pubDetail := ""
@@ -282,14 +335,7 @@ func runC17(c *Ctx) {
 
 	// R17-replace
 	{
-		var cas *ssa.Call
-		for _, b := range write.Blocks {
-			for _, ins := range b.Instrs {
-				if call, ok := ins.(*ssa.Call); ok && isAtomicCall(call, "CompareAndSwapPointer") {
-					cas = call
-				}
-			}
-		}
+		cas := casInFamily(write)
 		good, detail := false, "no CompareAndSwapPointer in Write"
 		if cas != nil {
 			old := stripConv(cas.Call.Args[1])
@@ -319,7 +365,7 @@ func runC17(c *Ctx) {
 				}
 				cur = d
 			}
-			_, freshIsLit := fresh.(*ssa.Alloc)
+			_, freshIsLit := argBehindParam(write, fresh).(*ssa.Alloc)
 			// every iteration works on a value atomically loaded from the slot the swap targets: either
 			// a loop-carried variable all of whose definitions are such loads (load before the loop +
 			// reload after a failed swap), or a load made inside the loop before the comparison
@@ -462,15 +508,12 @@ func runC17(c *Ctx) {
 
 		// increment only on (CAS succeeded && old == nil)
 		incOK, incDetail := false, "no counter increment found in Write"
-		var cas *ssa.Call
-		for _, b := range write.Blocks {
-			for _, ins := range b.Instrs {
-				if call, ok := ins.(*ssa.Call); ok && isAtomicCall(call, "CompareAndSwapPointer") {
-					cas = call
-				}
-			}
+		cas := casInFamily(write)
+		var famBlocks []*ssa.BasicBlock
+		for _, f := range funcFamily(write) {
+			famBlocks = append(famBlocks, f.Blocks...)
 		}
-		for _, b := range write.Blocks {
+		for _, b := range famBlocks {
 			for _, ins := range b.Instrs {
 				isInc := false
 				switch x := ins.(type) {
@@ -545,4 +588,72 @@ func archOf(c *Ctx) string {
 		return c.P.Cfg.GOARCH
 	}
 	return "amd64"
+}
+
+// funcFamily: fn plus the functions of its package it (transitively) calls statically - the
+// pieces a function may have been split into.
+func funcFamily(fn *ssa.Function) []*ssa.Function {
+	res := []*ssa.Function{fn}
+	seen := map[*ssa.Function]bool{fn: true}
+	for i := 0; i < len(res) && i < 12; i++ {
+		for _, b := range res[i].Blocks {
+			for _, ins := range b.Instrs {
+				if call, ok := ins.(ssa.CallInstruction); ok {
+					f := call.Common().StaticCallee()
+					if f != nil && !seen[f] && f.Blocks != nil && f.Pkg != nil && f.Pkg == fn.Pkg {
+						seen[f] = true
+						res = append(res, f)
+					}
+				}
+			}
+		}
+	}
+	return res
+}
+
+// casInFamily finds the CompareAndSwapPointer of a function or of the helpers it is split into.
+func casInFamily(fn *ssa.Function) *ssa.Call {
+	var cas *ssa.Call
+	for _, f := range funcFamily(fn) {
+		for _, b := range f.Blocks {
+			for _, ins := range b.Instrs {
+				if call, ok := ins.(*ssa.Call); ok && isAtomicCall(call, "CompareAndSwapPointer") {
+					cas = call
+				}
+			}
+		}
+	}
+	return cas
+}
+
+// argBehindParam maps a parameter of a helper to the (unique) argument its callers inside the
+// family pass; other values are returned unchanged.
+func argBehindParam(root *ssa.Function, v ssa.Value) ssa.Value {
+	for depth := 0; depth < 4; depth++ {
+		p, ok := v.(*ssa.Parameter)
+		if !ok || p.Parent() == root {
+			return v
+		}
+		idx := -1
+		for i, q := range p.Parent().Params {
+			if q == p {
+				idx = i
+			}
+		}
+		var arg ssa.Value
+		n := 0
+		for _, f := range funcFamily(root) {
+			for _, site := range callsTo(f, p.Parent()) {
+				if idx >= 0 && idx < len(site.Common().Args) {
+					arg = site.Common().Args[idx]
+					n++
+				}
+			}
+		}
+		if n != 1 {
+			return v
+		}
+		v = stripConv(arg)
+	}
+	return v
 }
